@@ -14,7 +14,7 @@ def bz01(data, level=9):
 def synth_valid(rnd, opts=None, nstreams=None, trailing=None, maxtries=20):
     """A synthesized stream that the strict reference calls VALID. -> (data, plaintext)"""
     for _ in range(maxtries):
-        o = opts if opts is not None else rnd.sample(['deep', 'surplus', 'badunused', 'rand', 'wiggle', 'bigrun', 'maxorig'],
+        o = opts if opts is not None else rnd.sample(['deep', 'surplus', 'badunused', 'rand', 'wiggle', 'bigrun', 'maxorig', 'maxlen'],
                                                      rnd.randint(0, 3))
         sts = [bs.rand_stream(rnd, opts=o) for _ in range(nstreams or rnd.randint(1, 3))]
         tr = trailing if trailing is not None else rnd.choice([b'', b'', b'x', b'BZ', b'BZh', b'BZh0', b'\0' * 7, rnd.randbytes(9)])
